@@ -157,10 +157,20 @@ func (p *Peer) pushHeadsForAllDocs(ctx context.Context, col client.Collection, p
 	txn := datastore.MustGetFromClientTxn(clientTxn)
 	ctx = datastore.CtxSetTxn(ctx, txn)
 
-	docIDChan, err := col.GetAllDocIDs(ctx)
+	// The producer of docIDChan iterates on this transaction. On an early return it must be
+	// stopped and waited for, otherwise its iterator is still open when the transaction is
+	// discarded, which panics.
+	iterCtx, cancelIter := context.WithCancel(ctx)
+	docIDChan, err := col.GetAllDocIDs(iterCtx)
 	if err != nil {
+		cancelIter()
 		return err
 	}
+	defer func() {
+		cancelIter()
+		for range docIDChan { //nolint:revive
+		}
+	}()
 	for docIDResult := range docIDChan {
 		if docIDResult.Err != nil {
 			return docIDResult.Err
